@@ -8,7 +8,7 @@ HERE="$(cd "$(dirname "$0")/.." && pwd)"
 NAME="$(basename "$SD")_$N"
 OUT=/tmp/seedeval; mkdir -p "$OUT"
 WT="$(mktemp -d /tmp/evalseed_XXXXXX)"; rmdir "$WT"
-git -C /repo worktree add -q --detach "$WT" HEAD || exit 2
+git -C /repo worktree add -q --detach "$WT" "${SEED_BASE:-HEAD}" || exit 2
 cp -r "$SD/_seed" "$WT/_seed"
 cd "$WT"; export PYTHONPATH="$WT"
 # without the change
